@@ -68,6 +68,19 @@ func c01Families() []Family {
 		Rules: map[string][][]string{"p": {{"c", "data1", "read"}, {"bc", "data2", "read"}, {"ab", "data2", "read"}}},
 		Links: map[string][][]string{"g": {{"ab", "c"}, {"a", "bc"}, {"a", "b"}, {"b", "c"}}},
 		Requests: strReqs([]string{"ab", "a", "b"}, objs, acts[:1])})
+	// 3c the same for every plausible separator: with names containing the separator, g(a, b<sep>c) and
+	// g(a<sep>b, c) must not share a memo entry — in either order of asking
+	for _, sep := range []string{":", ",", "|", " ", "/", "_", "-", "$", ";", ".", "#", "\x1f", "::", "\t"} {
+		x, y := "a"+sep+"b", "b"+sep+"c"
+		for oi, order := range [][2]int{{0, 1}, {1, 0}} {
+			reqs := [][]V{{VS("a"), VS("data1"), VS("read")}, {VS(x), VS("data2"), VS("read")}}
+			fs = append(fs, Family{Name: fmt.Sprintf("rbac-separator-names-%q-%d", sep, oi),
+				MS:       NewMSpec().AddR("r", "sub", "obj", "act").AddP("p", "sub", "obj", "act").AddG("g", 2).AddE("e", effAllow).AddM("m", "r", "p", rbacM),
+				Rules:    map[string][][]string{"p": {{y, "data1", "read"}, {"c", "data2", "read"}}},
+				Links:    map[string][][]string{"g": {{"a", y}}},
+				Requests: [][]V{reqs[order[0]], reqs[order[1]]}})
+		}
+	}
 	// 4 RBAC with resource roles
 	fs = append(fs, Family{Name: "rbac-resource-roles",
 		MS: NewMSpec().AddR("r", "sub", "obj", "act").AddP("p", "sub", "obj", "act").AddG("g", 2).AddG("g2", 2).AddE("e", effAllow).
